@@ -1,6 +1,7 @@
 package e9pos
 
 import (
+	"os"
 	"fmt"
 	"go/constant"
 	"go/token"
@@ -154,6 +155,8 @@ func (c *ppCtx) canon(v ssa.Value, depth int) string {
 		return c.canon(x.X, depth+1) + "[" + lo + ":" + hi + "]"
 	case *ssa.Lookup:
 		return c.canon(x.X, depth+1) + "[" + c.canon(x.Index, depth+1) + "]"
+	case *ssa.Index:
+		return c.canon(x.X, depth+1) + "[" + c.canon(x.Index, depth+1) + "]"
 	case *ssa.BinOp:
 		return c.canon(x.X, depth+1) + " " + x.Op.String() + " " + c.canon(x.Y, depth+1)
 	case *ssa.UnOp:
@@ -169,6 +172,9 @@ func (c *ppCtx) canon(v ssa.Value, depth int) string {
 		return c.canon(x.X, depth+1)
 	case *ssa.Extract:
 		return c.canon(x.Tuple, depth+1) + "#" + fmt.Sprint(x.Index)
+	}
+	if os.Getenv("VERIF_PP_DEBUG") != "" {
+		fmt.Fprintf(os.Stderr, "PP canon: unhandled %T %s\n", v, v)
 	}
 	return "?" + v.Name()
 }
@@ -381,6 +387,8 @@ func PrePassShape(p *load.Prog, r *oblig.Report, rule string) *PrePass {
 	var hdr *ssa.BasicBlock
 	var cleaned ssa.Value
 	var back interface{ Pos() token.Pos }
+	var altsOverride []ppAlt
+	var multiStores []*ssa.Store
 	// the text assembled in a strings.Builder: one WriteString(cleaned line) per input line, lines separated by "\n"
 	if why == "" {
 		if bcall, ok := arg.(*ssa.Call); ok {
@@ -473,11 +481,34 @@ func PrePassShape(p *load.Prog, r *oblig.Report, rule string) *PrePass {
 				}
 			}
 		}
-		if len(stores) != 1 {
+		if len(stores) > 1 {
+			// one store per alternative (a switch that writes the slot in every case): accepted when all stores use the
+			// same loop index and every path through the loop body passes through exactly one of them
+			if h, ok := exactlyOneStorePerIteration(stores); ok {
+				hdr = h
+				sized := stdCall(list, "strings", "Split") != nil
+				if mk, isMk := list.(*ssa.MakeSlice); isMk {
+					if lc, isCall := mk.Len.(*ssa.Call); isCall {
+						if bi, isB := lc.Common().Value.(*ssa.Builtin); isB && bi.Name() == "len" && stdCall(c.res(lc.Common().Args[0]), "strings", "Split") != nil {
+							sized = true
+						}
+					}
+				}
+				if !sized || !loopLeftOnlyFromHeader(hdr) {
+					r.Bad(rule, "prepass:one-line-out-per-line-in", pos(stores[0]), "the cleaned lines are written in place, but the list does not have one slot per input line or the loop can be left early: line numbers shift")
+					return pp
+				}
+				multiStores = stores
+				cleaned, back = stores[0].Val, stores[0]
+				r.OK(rule, "prepass:one-line-out-per-line-in", pos(stores[0]), "ssa", fmt.Sprintf("one slot per input line, filled at the loop index by exactly one of %d stores on every path; the loop is left only when the lines are exhausted", len(stores)))
+			}
+		}
+		if len(stores) != 1 && multiStores == nil {
 			r.Unknown(rule, "prepass:line-loop", pos(input), fmt.Sprintf("the joined list is not built in a loop (it is %s, written at %d places)", c.canon(list, 0), len(stores)))
 			return pp
 		}
 		st := stores[0]
+		if multiStores == nil {
 		idx := st.Addr.(*ssa.IndexAddr).Index
 		if bo, ok := idx.(*ssa.BinOp); ok && bo.Op == token.ADD {
 			idx = bo.X
@@ -515,6 +546,7 @@ func PrePassShape(p *load.Prog, r *oblig.Report, rule string) *PrePass {
 		}
 		cleaned, back = st.Val, st
 		r.OK(rule, "prepass:one-line-out-per-line-in", pos(st), "ssa", "one slot per input line, filled at the loop index on every path; the loop is left only when the lines are exhausted")
+		}
 	}
 	// (4) the ranged slice and the current line
 	var ranged ssa.Value
@@ -569,6 +601,15 @@ func PrePassShape(p *load.Prog, r *oblig.Report, rule string) *PrePass {
 	}
 	// (2) every alternative of the cleaned line
 	alts := c.alternatives(cleaned, 0)
+	for _, st := range multiStores {
+		sc := c.condsOf(st.Block())
+		for _, a := range c.alternatives(st.Val, 0) {
+			altsOverride = append(altsOverride, ppAlt{a.v, append(append([]string{}, sc...), a.conds...)})
+		}
+	}
+	if altsOverride != nil {
+		alts = altsOverride
+	}
 	if implicitBlank {
 		// the slot is written only under the conditions of the store; otherwise it keeps its initial ""
 		storeConds := c.condsOf(storeBlock)
@@ -637,6 +678,11 @@ func PrePassShape(p *load.Prog, r *oblig.Report, rule string) *PrePass {
 		return false
 	}
 	blanked, kept := false, true
+	if os.Getenv("VERIF_PP_DEBUG") != "" {
+		for _, a := range alts {
+			fmt.Fprintf(os.Stderr, "PP alt %s conds=%q\n", c.canon(a.v, 0), a.conds)
+		}
+	}
 	for _, a := range alts {
 		s, isC := constStr(a.v)
 		empty := isC && s == ""
@@ -896,4 +942,77 @@ func firstStoreUser(ia *ssa.IndexAddr) (*ssa.Store, bool) {
 		}
 	}
 	return nil, false
+}
+
+// exactlyOneStorePerIteration: all stores write at the same loop index and every path from the loop header through
+// the body back to the header passes through exactly one of them. Returns the loop header.
+func exactlyOneStorePerIteration(stores []*ssa.Store) (*ssa.BasicBlock, bool) {
+	var hdr *ssa.BasicBlock
+	inStore := map[*ssa.BasicBlock]int{}
+	for _, st := range stores {
+		ia, ok := st.Addr.(*ssa.IndexAddr)
+		if !ok {
+			return nil, false
+		}
+		idx := ia.Index
+		if bo, ok := idx.(*ssa.BinOp); ok && bo.Op == token.ADD {
+			idx = bo.X
+		}
+		ph, ok := idx.(*ssa.Phi)
+		if !ok || (hdr != nil && ph.Block() != hdr) {
+			return nil, false
+		}
+		hdr = ph.Block()
+		inStore[st.Block()]++
+	}
+	// min and max number of stores on the paths from a block to the header (the loop body is acyclic apart from the back edge)
+	type mm struct{ lo, hi int }
+	memo := map[*ssa.BasicBlock]*mm{}
+	onStack := map[*ssa.BasicBlock]bool{}
+	bad := false
+	var walk func(b *ssa.BasicBlock) *mm
+	walk = func(b *ssa.BasicBlock) *mm {
+		if b == hdr {
+			return &mm{0, 0}
+		}
+		if m, ok := memo[b]; ok {
+			return m
+		}
+		if onStack[b] || !dominatedBy(hdr, b) {
+			bad = true // a nested loop or an exit from the loop
+			return &mm{0, 0}
+		}
+		onStack[b] = true
+		res := &mm{1 << 30, -1}
+		for _, s := range b.Succs {
+			m := walk(s)
+			if m.lo < res.lo {
+				res.lo = m.lo
+			}
+			if m.hi > res.hi {
+				res.hi = m.hi
+			}
+		}
+		onStack[b] = false
+		if len(b.Succs) == 0 {
+			bad = true
+			res = &mm{0, 0}
+		}
+		res.lo += inStore[b]
+		res.hi += inStore[b]
+		memo[b] = res
+		return res
+	}
+	ok := true
+	entered := false
+	for _, s := range hdr.Succs {
+		if !dominatedBy(hdr, s) || !reachesBlock(s, hdr) {
+			continue // the loop exit
+		}
+		entered = true
+		if m := walk(s); m.lo != 1 || m.hi != 1 {
+			ok = false
+		}
+	}
+	return hdr, ok && entered && !bad
 }
